@@ -384,6 +384,17 @@ def rank_cases(rng: Rng, tier):
         tgt = [rng.randrange(C) for _ in range(n)]
         k = rng.choice([None, 1, 2, C - 1 if C > 1 else 1, C, C + 1, C + 2])
         yield case_rank(rng.choice(["hit_rate", "reciprocal_rank"]), rows, tgt, k, C)
+    # float64 scores that differ by 2^-40: distinct in float64, equal once rounded to float32 — a rank computed after a narrowing
+    # cast sees ties the definition does not (the grid cases above are exact in every float dtype and cannot tell)
+    for _ in range(400 if tier == "thorough" else 80):
+        C = rng.choice([2, 3, 5])
+        n = rng.choice([1, 2, 4])
+        vals = [float(rng.choice([0.0, 0.5, 1.0])) + rng.choice([0, 1, 2]) * 2.0 ** -40 for _ in range(n * C)]
+        x = torch.tensor(vals, dtype=torch.float64).reshape(n, C)
+        tgt = [rng.randrange(C) for _ in range(n)]
+        k = rng.choice([None, 1, 2, C])
+        yield build_fn_case({"form": "rank", "tag": "rank-f64-near-tie", "fn": rng.choice(["hit_rate", "reciprocal_rank"]),
+                             "input": tj(x), "target": tj(it(tgt)), "k": k})
     # rejected / degenerate parameters
     yield case_rank("hit_rate", [[Fr(1), Fr(0), Fr(0)]], [1], 0)
     yield case_rank("hit_rate", [[Fr(1), Fr(0), Fr(0)]], [1], -2)
